@@ -9,7 +9,9 @@ import (
 func formatForConsole(argumentList []Value) string {
 	output := []string{}
 	for _, argument := range argumentList {
-		output = append(output, fmt.Sprintf("%v", argument))
+		// Not fmt's %v: fmt recovers a panic raised by Value.String, which
+		// would swallow an interrupt delivered while a script toString runs.
+		output = append(output, describeValue(argument))
 	}
 	return strings.Join(output, " ")
 }
